@@ -11,10 +11,10 @@ VARIABLES l, viol, cnt
 ovars == <<l, viol, cnt>>
 
 Names == {"C01_NeverOverdrawn", "C01_RejectedWhole", "C03_NoNegative", "C03_PerDestination", "C03_PerSource",
-          "C03_Amount", "C08_SameAsSource", "C08_RefusedNotRun", "C08_BigValues", "C12_NoPanicNoHang", "C12_DefinedClass", "C12_Repeatable"}
+          "C03_Amount", "C08_SameAsSource", "C08_SameMetadata", "C08_RefusedNotRun", "C08_BigValues", "C12_NoPanicNoHang", "C12_DefinedClass", "C12_Repeatable"}
 
 Defined == {"ok", "no-postings", "compile-error", "insufficient", "failed", "invalid-script", "negative-amount",
-            "missing-metadata", "metadata-override", "invalid-vars"}
+            "missing-metadata", "metadata-override", "invalid-vars", "resolve-error"}
 
 Accts(ps) == {ps[i].src : i \in 1..Len(ps)} \cup {ps[i].dst : i \in 1..Len(ps)}
 ToDst(ps, a) == SumSeq([i \in 1..Len(ps) |-> IF ps[i].dst = a THEN ps[i].amt ELSE 0])
@@ -37,6 +37,8 @@ FailingOutcome(r, real) ==
         \cup T("C03_PerSource", both => \A a \in all : FromSrc(real.posts, a) = FromSrc(exp.posts, a))
         \cup T("C03_Amount", (Ran(exp.class) /\ ~Crashed(real.class)) => (Ran(real.class) /\ Moved(real.posts) = Moved(exp.posts)))
         \cup T("C08_SameAsSource", ~Crashed(real.class) => (real.class = exp.class /\ real.posts = exp.posts))
+        \cup T("C08_SameMetadata", ("txmeta" \in DOMAIN real /\ ~Crashed(real.class) /\ real.class = exp.class)
+                                        => (real.txmeta = exp.txmeta /\ real.acctmeta = exp.acctmeta))
         \cup T("C08_RefusedNotRun", exp.class = "compile-error" => real.class = "compile-error")
         \cup T("C12_NoPanicNoHang", ~Crashed(real.class))
         \cup T("C12_DefinedClass", Crashed(real.class) \/ real.class \in Defined)
